@@ -95,16 +95,33 @@ class Conn:
         def cb(msg):
             self.kinds.append(type(msg).__name__)
             callback(msg)
-        self.handler = CH(to_client, cw, cb, for_blobs=for_blobs)
+        # through the library's own TCP.connect, with the socket replaced by the pipe
+        from indi.transport.client import tcp as ctcp
+        real_open = asyncio.open_connection
+
+        async def pipe_open(address, port, *a, **kw):
+            return to_client, cw
+        asyncio.open_connection = pipe_open
+        try:
+            self.handler = await ctcp.TCP("server.invalid", 7624).connect(cb, for_blobs=for_blobs)
+        finally:
+            asyncio.open_connection = real_open
         self.server_task = asyncio.get_running_loop().create_task(SH.handler(self.system.router)(to_server, sw))
         self.cw, self.sw = cw, sw
         return self.handler
 
 
-def py_write_value(kind, x):
+def py_write_value(kind, x, keep=None, key=None):
     from indi.device import values
     if kind == "BLOB":
-        return values.BLOB(bytes(x[0]), x[1])
+        if keep is not None and key in keep and len(x[0]) % 2 == 1:
+            b = keep[key]                      # the same object submitted again with other contents
+            b.binary, b.format = bytes(x[0]), x[1]
+            return b
+        b = values.BLOB(bytes(x[0]), x[1])
+        if keep is not None:
+            keep[key] = b
+        return b
     return x
 
 
@@ -116,6 +133,7 @@ class System:
         self.log = []
         self.devs = []
         self.clients = []
+        self.blobs = {}
 
     async def settle(self, limit=400000):
         quiet, last = 0, -1
@@ -172,7 +190,7 @@ def run_case(c):
                         await asyncio.sleep(0)   # ... but the loop may run a given number of iterations
             elif op[0] == "drv":
                 d, k = s.devs[op[1]]
-                drvimpl.apply_op(d, k, op[2])
+                drvimpl.apply_op(d, k, op[2], s.blobs)
             elif op[0] == "handshake":
                 cl = s.clients[op[1]]
                 if c["clients"][op[1]]["kind"] == "net" and not cl._started:
@@ -192,7 +210,7 @@ def run_case(c):
                 vec = cl[op[2]][op[3]]
                 kind = type(vec).__name__.replace("Vector", "")
                 for en, x in op[4]:
-                    vec[en].value = py_write_value(kind, x)
+                    vec[en].value = py_write_value(kind, x, s.blobs, ("cl", op[1], op[2], op[3], en))
                 vec.submit()
 
         def brief(op):
